@@ -40,7 +40,8 @@ CONSTANTS
   KF_EarlyPeerKey,      \* D20: peer key / SSID are overwritten before the signature is verified
   KF_RejectCommits,     \* D21: a rejected binary message commits the version / binds the peer tag
   KF_AKETimerAlways,    \* D22: every AKE-type message restarts the query-ignore window
-  KF_SMPCorruptSilent   \* D24: an unparsable SMP message is dropped silently, the run stays half done
+  KF_SMPCorruptSilent,  \* D24: an unparsable SMP message is dropped silently, the run stays half done
+  KF_EarlySSID          \* D20b: the reported SSID is replaced as soon as an exchange derives its secret, not when it completes
 
 NoText == 0
 
@@ -59,7 +60,7 @@ InitParty(me, pol, ver) ==
     auth |-> "nil", ax |-> 0, agy |-> 0, aenc |-> 0, ahash |-> 0, akid |-> 0, atid |-> 0,
     oid |-> 0, tid |-> 0, cur |-> 0, prev |-> 0, tcur |-> 0, tprev |-> 0,
     ctrs |-> {}, macs |-> {}, pend |-> {},
-    sess |-> <<0, 0>>, peer |-> "none", rev |-> FALSE,
+    sess |-> <<0, 0>>, asess |-> <<0, 0>>, peer |-> "none", rev |-> FALSE,
     otag |-> 0, ttag |-> 0,
     smp |-> "nil", smpsec |-> <<>>, smpq |-> FALSE, smprun |-> 0,
     rsf |-> 0, rsq |-> <<>>,
@@ -207,7 +208,7 @@ Finish(s, fresh) ==
       s1 == [s EXCEPT !.oid = s.akid + 1, !.tid = s.atid,
                       !.prev = s.ax, !.cur = fresh, !.tcur = s.agy, !.tprev = 0,
                       !.ctrs = {}, !.macs = {}, !.pend = IF KF_ReAKEWipesMacs THEN {} ELSE s.pend \cup {<<k[3], k[4]>> : k \in s.macs},
-                      !.ms = "enc", !.renc = TRUE]
+                      !.ms = "enc", !.renc = TRUE, !.sess = IF KF_EarlySSID THEN @ ELSE s.asess]
       s2 == WipeAKE(s1)
       ev == (IF s.peer = s.me THEN <<"msg:MessageReflected">> ELSE <<>>)
             \o (IF was = "enc" THEN <<"sec:StillSecure">> ELSE <<"sec:GoneSecure">>)
@@ -235,8 +236,9 @@ RecvDHKey(s, m) ==
   CASE s.auth = "awDHKey" ->
          IF m.gy = -2 THEN Res(s, <<>>, NoText, TRUE, <<>>)
          ELSE IF s.agy # 0 THEN Res(s, <<>>, NoText, FALSE, <<>>)
-         ELSE LET s1 == WithOwnTag([s EXCEPT !.agy = m.gy, !.sess = SortedPair(s.ax, m.gy), !.akid = s.akid + 1,
-                                             !.rev = TRUE, !.auth = "awSig"])
+         ELSE LET s1 == WithOwnTag([s EXCEPT !.agy = m.gy, !.asess = SortedPair(s.ax, m.gy),
+                                             !.sess = IF KF_EarlySSID THEN SortedPair(s.ax, m.gy) ELSE @, !.akid = s.akid + 1,
+                                             !.rev = IF KF_EarlySSID THEN TRUE ELSE @, !.auth = "awSig"])
                   xs == SigBlob("R", s1.ax, m.gy, s1.me, s1.akid)
               IN Res(s1, <<RevealSigMsg(s1, s1.ax, xs)>>, NoText, FALSE, <<>>)
     [] s.auth = "awSig" ->
@@ -258,7 +260,7 @@ RecvRevealSig(s, m, fresh) ==
        THEN Res(s, <<>>, NoText, TRUE, <<>>)
   ELSE
     LET gx == s.aenc
-        s1 == [s EXCEPT !.agy = gx, !.sess = SortedPair(s.ax, gx)]
+        s1 == [s EXCEPT !.agy = gx, !.asess = SortedPair(s.ax, gx), !.sess = IF KF_EarlySSID THEN SortedPair(s.ax, gx) ELSE @]
         keep == IF KF_EarlyPeerKey THEN s1 ELSE s
     IN IF ~BlobMACOk(m.xs, "R", s.ax, gx) THEN Res(keep, <<>>, NoText, TRUE, <<>>)
        ELSE
@@ -276,7 +278,7 @@ RecvSig(s, m, fresh) ==
   ELSE
     LET s2 == [s EXCEPT !.peer = m.xs.pub]
     IN IF ~BlobSigOk(m.xs, s.ax, s.agy) THEN Res(IF KF_EarlyPeerKey THEN s2 ELSE s, <<>>, NoText, TRUE, <<>>)
-       ELSE LET s3 == [s2 EXCEPT !.atid = m.xs.kid, !.auth = "none"]
+       ELSE LET s3 == [s2 EXCEPT !.atid = m.xs.kid, !.auth = "none", !.rev = TRUE]
                 f == Finish(s3, fresh)
             IN Res(f.s, <<>>, NoText, FALSE, f.evs)
 
